@@ -1021,15 +1021,16 @@ func run(c *core.Ctx) error {
 				c.ModelCheck("Alias", m.cfg, core.Workers(m.workers), core.Timeout(28*time.Minute))
 			}(m)
 		}
-		// the literal model of hitsInCurrentPage (trim only when Size > 0) must violate
-		// PageEqSize0 in the model: the design-level reproduction of finding
-		// alias-size0-from-positive-returns-hits. Informational, never a verdict.
+		// the model of hitsInCurrentPage as it was before /repo 22240fd (trim only when
+		// Size > 0) must violate PageEqSize0: the design-level reproduction of the repaired
+		// finding alias-size0-from-positive-returns-hits. Informational (shows the invariant
+		// has teeth), never a verdict, not counted in the evidence's state totals.
 		wg.Add(1)
 		go func() {
 			defer wg.Done()
-			res, err := c.RunTLC("expected-counterexample", "Alias", "Alias_mc_size0quirk.cfg", core.Workers(1), core.Timeout(5*time.Minute))
+			res, err := tlc.Run(c.TLCOpts("Alias", "Alias_mc_size0quirk.cfg", core.Workers(1), core.Timeout(5*time.Minute)))
 			if err == nil && res != nil {
-				c.Extra("model_of_literal_hitsInCurrentPage_violates", res.Violated)
+				c.Extra("model_of_pre_22240fd_hitsInCurrentPage_violates_as_expected", res.Violated)
 			}
 		}()
 	}
